@@ -229,7 +229,10 @@ class _Scan:
         # x += [...] on a local that *is* an input list extends it in place
         for st in walk_no_nested(fi.node):
             if isinstance(st, ast.AugAssign) and \
-                    isinstance(st.target, ast.Name):
+                    isinstance(st.target, ast.Name) and not getattr(
+                        st, '_was_assign', False):
+                # (`x = x + e`, which the canonicaliser spells `x += e`
+                # and marks, builds a new list and is not a mutation)
                 self.n += 1
                 cont, extra = input_paths(st.target)
                 if cont and not extra and any(
